@@ -36,7 +36,7 @@ C['peptacular.sequence.sequence_funcs:sequence_length'] = dict(
 
 C['peptacular.sequence.sequence_funcs:find_subsequence_indices'] = dict(
     params=dict(sequence='Annot', subsequence='Annot', ignore_mods='bool'), returns='List[int]', pure=True, trusted=True,
-    bounded_by='checked exhaustively against the brute-force occurrence oracle in bounded/C16.py (two-letter alphabet, overlaps)',
+    bounded_by='proved with OCC written out in contracts/search.py (modulo LC-REGEX-LITERAL); checked exhaustively against the brute-force occurrence oracle in bounded/C16.py (two-letter alphabet, overlaps)',
     ensures=[
         # C16 first sentence: exactly the offsets of the occurrences (OCC), each once, ascending, inside the target
         ('in-range', 'forall(lambda k: implies(0 <= k and k < len(result), 0 <= result[k] and result[k] + sequence_length(subsequence)'
